@@ -15,7 +15,9 @@ VERIF = build.VERIF
 OUT = os.path.join(VERIF, "out")
 EVID = os.path.join(VERIF, "evidence")
 REGRESS = os.path.join(VERIF, "regress")
-KNOWN = os.path.join(VERIF, "known_findings.jsonl")
+# VERIF_KNOWN_FILE: another known-findings file (only used while verifying a repair in a scratch tree: a copy of
+# the committed file with the repaired entry flipped to "fixed")
+KNOWN = os.environ.get("VERIF_KNOWN_FILE") or os.path.join(VERIF, "known_findings.jsonl")
 
 
 class Discard(Exception):
